@@ -236,7 +236,12 @@ def nmPDec : Handler
                 | some (_, L) =>
                   match specParse L bs with
                   | none => "undef"
-                  | some (_, exp) => tidy s!"ok {if gsm then 1 else 0} {toHex (bs.take hl)} {T.name} {msgToks exp}"
+                  | some (sm, exp) =>
+                    let got := match plainDecode nasCodecC bs with
+                      | .ok pm => pm.body
+                      | .error _ => []
+                    tidy s!"ok {if gsm then 1 else 0} {toHex (bs.take hl)} {T.name} {msgToks exp}" ++
+                      keysSuffix L (decKeys L sm exp got)
           if e.toNat == Spec.Ts24501.epd5GMM then go false 2 3
           else if e.toNat == Spec.Ts24501.epd5GSM then go true 3 4
           else "err"
